@@ -87,6 +87,9 @@ class LogPaxosWorld(NetWorld):
         self.promised_foreign = {}  # node -> highest ballot of ANOTHER node it has sent a Promise for
         self.deposed_slots = ()  # slots for which a node sent an Accept at or below a foreign ballot it had promised
         self.slot_ballots = {}  # slot -> ballot numbers / nodes seen in Accepts for it
+        self.own_assigned = {}  # (node, slot) -> command the node itself sent Accepts for
+        self.passive_slots = ()  # slots a node reported decided with ITS OWN assigned entry on the word of another
+        #                          leader's commit_index (Heartbeat / Accept), i.e. without a quorum for that entry
         self.kept_leading = ()  # nodes that still reported is_leader right after sending a Promise for a foreign ballot
         self.kept_slots = ()  # deposed_slots whose Accept came from such a node
         self._just_promised = None
@@ -208,6 +211,12 @@ class LogPaxosWorld(NetWorld):
                 k = (nd.name, s)
                 if k not in self.first:
                     self.first[k] = cmd
+                    lab = self.last
+                    if (lab is not None and lab[0] == "deliver" and s not in self.passive_slots
+                            and self.own_assigned.get(k, ("<none>",)) == cmd
+                            and (lab[2].split(" ")[0].endswith("Heartbeat") or lab[2].split(" ")[0].endswith("PaxosAccept"))
+                            and f"->{nd.name} " in lab[2]):
+                        self.passive_slots = tuple(sorted(set(self.passive_slots) | {s}))
                     if s not in self.slot_first:
                         self.slot_first[s] = (cmd, self.ballot_of(nd), nd.name)
                     elif self.slot_first[s][0] != cmd:
@@ -257,6 +266,10 @@ class LogPaxosWorld(NetWorld):
                 # the slot already held an accepted entry when the later leader began / a Promise carried it:
                 # the new leader was told and ignored it (known: recovery ignores promised logs)
                 return "takeover"
+            if s in self.passive_slots:
+                # an old leader that never heard of the take-over holds its own unacknowledged entry for the slot
+                # and commits it when the new leader's commit_index arrives (no check which ballot wrote the entry)
+                return "takeover-own-unchosen-entry-committed-on-foreign-commit-index"
             nums = {b[0] for b in self.slot_ballots.get(s, ())}
             nodes = {b[1] for b in self.slot_ballots.get(s, ())}
             if len(nodes) > 1 and len(nums) == 1:
@@ -282,6 +295,7 @@ class LogPaxosWorld(NetWorld):
             src = md["source"]
             b = (md["ballot_number"], md["ballot_node"])
             slot = md["slot"]
+            self.own_assigned[(src, slot)] = md.get("command")
             sb = set(self.slot_ballots.get(slot, ()))
             if b not in sb:
                 self.slot_ballots[slot] = tuple(sorted(sb | {b}))
@@ -380,7 +394,7 @@ class LogPaxosWorld(NetWorld):
                 tuple(sorted(self.first.items(), key=repr)), tuple(sorted(self.slot_first.items(), key=repr)),
                 tuple((f.is_resolved, repr(f.value) if f.is_resolved else None) for _n, _c, f in self.futures),
                 tuple(sorted(map(repr, self.flags))), self.pre_slots, self.deposed_slots, self.kept_leading,
-                self.kept_slots,
+                self.kept_slots, self.passive_slots, tuple(sorted(self.own_assigned.items(), key=repr)),
                 tuple(sorted(self.promised_foreign.items())), tuple(sorted(self.slot_ballots.items())))
 
     def describe(self):
